@@ -204,7 +204,9 @@ func (enc *Encoder) Encode(v any) error {
 	}
 
 	e := newEncodeState()
+	verifAcquireEnc(e)
 	defer encodeStatePool.Put(e)
+	defer verifReleaseEnc(e)
 
 	err := e.marshal(v, encOpts{escapeHTML: enc.escapeHTML})
 	if err != nil {
